@@ -148,6 +148,10 @@ def gen_config(rng, opts=None):
             su['invocations'] = rng.randint(1, o['max_inv'])
         if o['retries'] and rng.random() < 0.4:
             su['retries_after_failure'] = rng.choice([0, 1, 2, 3, 8])
+        if rng.random() < 0.3:   # timeouts (and only timeouts) of such runs are tolerated
+            su['ignore_timeouts'] = True
+            if rng.random() < 0.5:
+                su['max_invocation_time'] = rng.choice([60, 600])
         if o['builds'] and rng.random() < 0.3:
             su['build'] = ['make s%d' % s] if rng.random() < 0.7 else ['make shared']
         if rng.random() < 0.3:    # the suite's own location: equal to / different from the executor's path
@@ -254,6 +258,7 @@ class Probe(object):
                 'profile': run.is_profiling(), 'iterations': run.iterations,
                 'rd_invocations': run.benchmark.run_details.invocations,
                 'rd_warmup': run.benchmark.run_details.warmup,
+                'ignore_timeouts': bool(run.ignore_timeouts),
                 'variables': run.benchmark.variables.as_dict(),
             })
         self.by_cols = {}
@@ -333,7 +338,47 @@ def gen_outputs(rng, probe, fail_rate=0.15):
     return table
 
 
-def make_script(probe, outputs, build_ok, stop=None, log=None, fail_style=None):
+CRASH_DPS = [[('mem', 'kb', 77.0), ('total', 'ms', 7.5)], [('total', 'ms', 8.0)]]
+FAIL_STYLES = ['rc', 'rc', 'garbage', 'rc+data:1', 'rc+data:2', 'rc+data:139', 'rc+data:-11', 'rc+data:-9']
+
+
+def build_raw(rng, probe, outputs):
+    """what every process does: exit code and the data points its output parses to.  A failing invocation
+    exits non-zero without output, prints garbage and exits 0, or crashes (exit 1, 2, 139, -11) or is
+    killed by the time-out (-9) after having printed results for some iterations."""
+    raw = []
+    for i, per in enumerate(outputs):
+        row = []
+        for o in per:
+            if o is not None:
+                row.append({'rc': 0, 'dps': o})
+            elif probe.runs[i]['profile']:
+                row.append({'rc': rng.choice([1, -9]), 'dps': [[('total', '', 0.0)]]})   # perf ignores the output
+            else:
+                style = rng.choice(FAIL_STYLES)
+                if style == 'rc':
+                    row.append({'rc': 1, 'dps': []})
+                elif style == 'garbage':
+                    row.append({'rc': 0, 'dps': []})
+                else:
+                    row.append({'rc': int(style.split(':')[1]), 'dps': [list(d) for d in CRASH_DPS]})
+        raw.append(row)
+    return raw
+
+
+def recorded_by_spec(o, faulty, ignore_timeouts):
+    """the property's 'successful invocation', restated: exit 0 -- or any exit but 127 with --faulty, or the
+    time-out code for a run that ignores time-outs -- and output that parses to data"""
+    ok = o['rc'] == 0 or (o['rc'] != 127 and faulty) or (o['rc'] == -9 and ignore_timeouts)
+    return bool(ok and o['dps'])
+
+
+def effective_outputs(probe, raw, faulty):
+    return [[(o['dps'] if recorded_by_spec(o, faulty, probe.runs[i]['ignore_timeouts']) else None) for o in per]
+            for i, per in enumerate(raw)]
+
+
+def make_script(probe, outputs, build_ok, stop=None, log=None, fail_style=None, raw=None):
     """script for drive.run_session: deterministic in (run, invocation); `stop` = k-th start is interrupted"""
     counter = {'n': 0}
 
@@ -349,11 +394,24 @@ def make_script(probe, outputs, build_ok, stop=None, log=None, fail_style=None):
             return drive.Outcome(0, PERF_REPORT)
         if c[0] != 'r':
             return drive.Outcome(1, 'unexpected start')
+        if raw is not None:
+            ro = raw[c[1]][c[2] - 1] if c[2] - 1 < len(raw[c[1]]) else {'rc': 1, 'dps': []}
+            if probe.runs[c[1]]['profile']:
+                return drive.Outcome(ro['rc'], '')
+            if not ro['dps']:
+                return drive.Outcome(ro['rc'], 'nothing to see here\n' if ro['rc'] == 0 else 'boom\n')
+            return drive.Outcome(ro['rc'], render_rebench_log(probe.runs[c[1]]['bench_name'], ro['dps']))
         o = outputs[c[1]][c[2] - 1] if c[2] - 1 < len(outputs[c[1]]) else None
         if o is None:
             style = (fail_style or {}).get((c[1], c[2]), 'rc')
             if style == 'garbage' and not probe.runs[c[1]]['profile']:   # perf ignores the output
                 return drive.Outcome(0, 'nothing to see here\n')
+            if style.startswith('rc+data') and not probe.runs[c[1]]['profile']:
+                # a crash after printing parseable results for some iterations: a failed invocation all the same
+                rc = {'rc+data': 1, 'rc+data:2': 2, 'rc+data:139': 139, 'rc+data:-11': -11}.get(style, 1)
+                b = probe.runs[c[1]]['bench_name']
+                return drive.Outcome(rc, '%s: mem: 77kb\n%s: iterations=1 runtime: 7.5ms\n%s: iterations=1 runtime: 8ms\n'
+                                     % (b, b, b))
             return drive.Outcome(1, 'boom\n')
         if probe.runs[c[1]]['profile']:
             return drive.Outcome(0, '')
@@ -397,7 +455,7 @@ class Observed(object):
     pass
 
 
-def run_real_session(wd, probe, argv, script, random_choice=None):
+def run_real_session(wd, probe, argv, script, random_choice=None, cpu_count=1):
     """one real session; returns Observed: status, starts (classified), run order, file texts"""
     conf = os.path.join(wd, 'test.conf')
     order = {}
@@ -429,11 +487,32 @@ def run_real_session(wd, probe, argv, script, random_choice=None):
         disk.append([read_text(os.path.join(wd, f)) for f in probe.files])
         return script(rec)
     try:
-        res = drive.run_session(wd, [conf] + list(argv), snapshotting, random_choice=random_choice)
+        res = drive.run_session(wd, [conf] + list(argv), snapshotting, random_choice=random_choice,
+                                cpu_count=cpu_count)
+        n_starts_at_return = len(res.starts)
+        import threading as _th
+        alive_at_return = [t.name for t in _th.enumerate() if t.name.startswith('BenchmarkThread') and t.is_alive()]
     finally:
         rb_main.ReBench.execute_experiment = orig
         RunId.loaded_data_point = orig_loaded
         release_hanging()
+        # a session is over when its threads are: never let workers of one session run into the next
+        import threading
+        leftover = []
+        for t in threading.enumerate():
+            if t is not threading.current_thread() and (t.name.startswith('BenchmarkThread')
+                                                        or t.name.startswith('Subprocess')):
+                try:
+                    t.join(5)
+                except RuntimeError:      # still being started
+                    import time as _time
+                    _time.sleep(0.05)
+                    try:
+                        t.join(5)
+                    except RuntimeError:
+                        pass
+                if t.is_alive():
+                    leftover.append(t.name)
     ob = Observed()
     ob.status = res.status()
     ob.crash = res.crash
@@ -448,6 +527,10 @@ def run_real_session(wd, probe, argv, script, random_choice=None):
     ob.files = [read_text(os.path.join(wd, f)) for f in probe.files]
     ob.disk_at_start = disk
     ob.reloaded = reloaded
+    ob.threads_left = leftover
+    ob.workers_alive_at_return = alive_at_return
+    # processes started after the session had returned to its caller (workers that were not stopped)
+    ob.late_starts = [classify_start(probe, x) for x in res.starts[n_starts_at_return:]]
     return ob
 
 
@@ -556,7 +639,11 @@ def scenario_op(op, probe, outputs, build_ok, specs, rt_k=None, rt_b=None):
         'runs': [{'key': i, 'bench': r['bench'], 'invocations': r['invocations'], 'retries': r['retries'],
                   'warmup': r['warmup'], 'files': r['files'], 'builds': r['builds']}
                  for i, r in enumerate(probe.runs)],
-        'out': [[None if o is None else [[meas_json(m) for m in dp] for dp in o] for o in per] for per in outputs],
+        'out': ([[{'rc': o['rc'], 'dps': [[meas_json(m) for m in dp] for dp in o['dps']]} for o in per]
+                 for per in probe.raw] if getattr(probe, 'raw', None) is not None else
+                [[None if o is None else [[meas_json(m) for m in dp] for dp in o] for o in per] for per in outputs]),
+        'faulty': bool(getattr(probe, 'faulty', False)),
+        'ignoreTimeouts': [bool(r.get('ignore_timeouts')) for r in probe.runs],
         'buildOk': list(build_ok),
         'sessions': [{'sched': s['sched'], 'order': s['order'], 'choices': s.get('choices', []),
                       **({'stop': s['stop']} if s.get('stop') is not None else {})} for s in specs],
